@@ -788,6 +788,9 @@ def _apply_bound(E, c, st, env, module, where):
             r, normal2 = E.split(normal, t)
         else:
             nd = E.fresh(z3.BoolSort(), 'raises_' + ename.split('.')[-1])
+            # whether a callee with an `only_if` clause raises is a choice of the callee's abstraction, not an input: a counter-model
+            # on a path below cannot be refuted by replaying the entry values (verify._triage_sat reads this ghost flag)
+            normal.ghost['abstract_choices'] = 'callee %s may raise %s (only_if)' % (c.target.split('.')[-1], ename.split('.')[-1])
             r, normal2 = E.split(normal, z3.And(nd, t))
         if r is not None:
             ex = ExcV(resolve_exc(E, ename, module), ())
